@@ -273,6 +273,7 @@ func modelScenarioWith(cfg modelCfg, prebuilt *builder.RuleBuilder) *hx.Scenario
 				x.err2, x.pan2 = gx.CallGuarded(func() error {
 					return tw.Call(g2, rb, gx.Params{B: cfg.B, N: cfg.N, M: cfg.M, Names: cfg.Names})
 				})
+				x.log2.Ev("ret", 0)
 				r2, _ := g2.GetRulesResultMap()
 				x.res2 = gx.CopyResult(r2)
 			}
@@ -313,7 +314,7 @@ func modelScenarioWith(cfg modelCfg, prebuilt *builder.RuleBuilder) *hx.Scenario
 						fs = append(fs, hx.Finding{Sig: pfx + "unselected-rule-ran", Msg: fmt.Sprintf("rule %s was not named but ran %d time(s)", r.Name, cnt) + desc()})
 					}
 				}
-				if !any && (len(x.log.Evs) > 0 || x.err == nil) {
+				if !any && (len(toRefLog(x.log)) > 0 || x.err == nil) {
 					fs = append(fs, hx.Finding{Sig: pfx + "nothing-selectable", Msg: "no named rule exists: the call must fail without running anything" + desc()})
 				}
 				return fs
